@@ -165,7 +165,7 @@ pub fn gen(rng: &mut Rng, depth: u32, lv: &Leaves, fam: Option<usize>) -> (Ex, I
 		let (dl, dr) = if rng.chance(1, 2) { (depth - 1, d_other) } else { (d_other, depth - 1) };
 		let (l, li) = gen(rng, dl, lv, Some(op));
 		let (r, ri) = if (op == SHL || op == SHR) && rng.chance(3, 4) { let k = rng.below(20) as i64; (Ex::Num(k), (k as i128, k as i128)) }
-			else if (op == DIV || op == MOD) && rng.chance(1, 3) { let k = 1 + rng.below(16) as i64; (Ex::Num(k), (k as i128, k as i128)) }
+			else if (op == DIV || op == MOD) && rng.chance(1, 3) { let k = 1 + rng.below(16) as i64; let k = if rng.chance(1, 4) { -k } else { k }; (if k < 0 { Ex::Neg(Box::new(Ex::Num(-k))) } else { Ex::Num(k) }, (k as i128, k as i128)) }
 			else { gen(rng, dr, lv, Some(op)) };
 		if let Some(iv) = combine(op, li, ri) { return (Ex::Bin(op, Box::new(l), Box::new(r)), iv); }
 	}
